@@ -21,6 +21,9 @@ import (
 func Verif_C20_ClientToServer() {
 	n := zv.Param("sends", 3)
 	release := zv.Choose("release", 3) // 0 handler receives, 1 handler returns, 2 context cancelled
+	// the bound is the same whatever the method's declared shape: also a raw stream
+	// of a single-request (server-streaming) method parks its further sends
+	mtd := []string{"S", "R", "C"}[zv.Choose("method", 3)]
 	hooks := &verifHooks{}
 	gate := make(chan struct{})
 	var received int32
@@ -39,7 +42,7 @@ func Verif_C20_ClientToServer() {
 	ch := verifChannel(hooks)
 	ctx, cancel := context.WithCancel(context.Background())
 	defer cancel()
-	cs, err := ch.NewStream(ctx, zzfix.StreamDescOf("S"), "/a/S")
+	cs, err := ch.NewStream(ctx, zzfix.StreamDescOf(mtd), "/a/"+mtd)
 	if err != nil {
 		zv.Fail("stream-created")
 		return
